@@ -6,8 +6,12 @@ export GOFLAGS=-mod=mod GOPROXY=off GOSUMDB=off GOTOOLCHAIN=local
 S="$(mktemp -d "${TMPDIR:-/tmp}/verif-setup.XXXXXX")"
 trap 'rm -rf "$S"' EXIT
 go build -o "$S/instrument" ./cmd/instrument
-"$S/instrument" -repo "${VERIF_REPO:-/repo}" -out "$S/ov"
+"$S/instrument" -repo "${VERIF_REPO:-/repo}" -target /repo -out "$S/ov"
 go build -overlay "$S/ov/full.json" -o "$S/runner" ./cmd/runner
 go build -overlay "$S/ov/stub.json" -o "$S/runner-stub" ./cmd/runner
 go build -race -overlay "$S/ov/stub.json" -o "$S/runner-race" ./cmd/runner
-echo "setup: ok"
+# conformance of the instrumentation: the repository's own suite on the instrumented build
+for m in "" reverse rotate; do
+  ( cd "${VERIF_REPO:-/repo}" && VERIF_MC_UNIFORM=$m go test -vet=off -count=1 -overlay "$S/ov/full.json" ./... > "$S/conf.log" 2>&1 ) || { cat "$S/conf.log"; echo "setup: repository suite fails on the instrumented build (schedule '$m')"; exit 1; }
+done
+echo "setup: ok (repository suite passes on the instrumented build under 3 map schedules)"
